@@ -1,2 +1,8 @@
-/- C04 (statements are being added) -/
-import D42.Model.Subst
+/-
+  C04 — substitution pins the given value into the schema. The theorems are proved in D42/Props/C05.lean
+  (C04 and C05 share the mutual inductions over `subst`): `subst_accepts` (with the recorded findings
+  excluded: K6 `NoNaN`, K12 `NoContains`, K13 `NoOpenDictAlt`), `subst_total`, `subst_keeps_rest`,
+  `subst_given_required`, `subst_pins_scalar`, `subst_pins_bool_int`, `subst_pins_float_precision`, and the
+  counter-example theorems `subst_accepts_counterexample` (K13) and `subst_accepts_contains_counterexample` (K12).
+-/
+import D42.Props.C05
